@@ -315,7 +315,7 @@ impl CaseEngine for C31 {
          commit(k), (b) with k successive commit(i), (c) by marking them committed and constructing a new ClusterStorage (restart replay). \
          Verdict from state: user nodes and tagged nodes appear in log order (ids assigned by the databases record the execution order), \
          every tag exactly once, and users / tags / edges equal those of a reference instance that commits one entry at a time awaiting \
-         each execution. evaluations = actions committed; distinct = distinct executed-order permutations observed (from notifications)"
+         each execution. evaluations = actions committed; distinct = distinct executed-order permutations observed (from notifications) plus distinct (mode, runtime workers, chained, failing actions) configurations"
             .into()
     }
     fn cases(&self, args: &Args) -> usize {
@@ -383,6 +383,7 @@ impl CaseEngine for C31 {
         match (tested, reference) {
             (Ok(t), Ok(r)) => {
                 rep.distinct_hash(tag(&format!("{:?}", t.notifications)));
+                rep.distinct_hash(tag(&format!("{mode:?}|{workers}|{chained}|{failing}")));
                 let in_order = t.notifications.windows(2).all(|w| w[0] < w[1]);
                 if !in_order {
                     rep.count("runs_with_notifications_out_of_order");
